@@ -36,7 +36,8 @@ Alphabet(f) ==
     \cup (IF f.digit_separator # 0 THEN {f.digit_separator} ELSE {})
     \cup (IF f.base_prefix # 0 THEN {f.base_prefix, Flip(f.base_prefix)} ELSE {})
     \cup (IF f.base_suffix # 0 THEN {f.base_suffix, Flip(f.base_suffix)} ELSE {})
-    \cup (IF Radix(f) = 16 THEN {97} ELSE {})
+    \cup (IF Radix(f) \in {16, 32} THEN {97} ELSE {})                                \* a digit of the mantissa only
+    \cup (IF ExponentRadix(f) > Radix(f) /\ Radix(f) < 10 THEN {57} ELSE {})        \* a digit of the exponent only
 
 VARIABLES fi, kind, st, st0, st1, agree, hist
 view == << fi, kind, st, st0, st1, agree >>
